@@ -31,8 +31,8 @@ class Random:
         try:
             left_number = round(start * scale_factor)
             right_number = round(end * scale_factor)
-        except OverflowError:
-            # the scaled bound is infinite: no float of that magnitude lies on the grid anyway
+        except (OverflowError, ValueError):
+            # the scaled bound is infinite or nan: nothing of that magnitude lies on the grid
             return self.random_float(start, end)
         if round(left_number / scale_factor, precision) < start:
             left_number += 1
